@@ -227,3 +227,20 @@ Section Spec.
       destruct (LogicalProofs.stl reg sg fresh p m) eqn:E; auto. exfalso. apply H. apply (Ham Hrm). reflexivity.
   Qed.
 End Spec.
+
+(** The stores rewritten by a run are exactly those of the out-of-date stored (non-source) nodes. *)
+Theorem writes_exact reg sg fresh p n :
+  wf_plan p -> (n < length p)%nat ->
+  (is_written reg sg fresh p n = true <->
+   exists e, reg n = Some e /\ is_src e = false /\ ~ utd reg sg fresh p n).
+Proof.
+  intros wf Hn. destruct (stale_iff_out_of_date reg sg fresh p wf n Hn) as [Ha _].
+  unfold is_written, st_of. destruct (reg n) as [e|] eqn:Er.
+  - assert (Hr : Some e <> None) by congruence. specialize (Ha Hr). split.
+    + intros H. apply andb_true_iff in H. destruct H as [Hs Hsrc]. exists e. split; auto. split.
+      * apply negb_true_iff. exact Hsrc.
+      * intros Hu. apply Ha in Hu. congruence.
+    + intros (e' & He & Hsrc & Hnu). inversion He; subst e'. rewrite Hsrc. cbn. rewrite andb_true_r.
+      destruct (is_stale reg sg fresh p n) eqn:E; auto. exfalso. apply Hnu. apply Ha. reflexivity.
+  - split; [discriminate|]. intros (e & He & _). discriminate.
+Qed.
